@@ -197,6 +197,7 @@ func init() {
 				if err := json.Unmarshal(raw, &cs); err != nil {
 					panic(err)
 				}
+				c.Pending(&cs)
 				c19Run(&cs, r)
 				emit(&cs)
 			}
@@ -226,6 +227,7 @@ func init() {
 				}
 				cs.Lists = append(cs.Lists, l)
 			}
+			c.Pending(cs)
 			c19Run(cs, r)
 			emit(cs)
 		}
